@@ -2248,9 +2248,15 @@ Proof.
     destruct Hk; try constructor. apply IH. apply assoc_set_rel; assumption.
 Qed.
 
+Lemma forallb_is_arr_rel : forall l l', Forall2 vrel l l' -> forallb is_arr l = forallb is_arr l'.
+Proof.
+  induction 1 as [|a b l l' Hab _ IH]; [reflexivity|]. cbn [forallb]. rewrite IH. f_equal.
+  destruct Hab; reflexivity.
+Qed.
 Lemma from_items_rel : forall a a', vrel a a' -> orel vrel (from_items a) (from_items a').
 Proof.
   intros a a' H. destruct H; try constructor. cbn [from_items].
+  match goal with F : Forall2 vrel ?l ?l' |- _ => rewrite (forallb_is_arr_rel _ _ F); destruct (forallb is_arr l'); [|constructor] end.
   eapply orel_bind; [apply from_items_loop_rel; [eassumption|constructor]|].
   intros m m' Hm. constructor. constructor. exact Hm.
 Qed.
